@@ -1,0 +1,7 @@
+//go:build !verif
+
+package klog
+
+import "github.com/jotaen/klog/klog/app"
+
+func verifWrapContext(ctx app.Context) app.Context { return ctx }
